@@ -30,6 +30,9 @@ def main():
         wt = '/tmp/seed3-' + prop
     if name.endswith('-4'):
         wt = '/tmp/seed4-' + prop
+    if name.endswith('-5'):
+        wt = '/tmp/seed5-' + prop
+    scratch = os.environ.get('VERIF_SEED_SCRATCH', '/tmp/verif-scratch-seed')
     so = os.path.join(wt, 'seed_out')
     meta = json.load(open(os.path.join(so, 'meta.json')))
     demo = meta['demo_cmd']
@@ -59,8 +62,8 @@ def main():
         p = os.path.join(so, f)
         if os.path.isfile(p) and os.path.getsize(p) < 200000:
             shutil.copy(p, os.path.join(dst, f))
-    rc, out = sh('python3 %s/selftest/run.py --tests --scratch /tmp/verif-scratch-seed --patch %s --prop %s %s' % (
-        VERIF, os.path.join(dst, 'patch.diff'), prop, ('--also ' + ' '.join(also)) if also else ''))
+    rc, out = sh('python3 %s/selftest/run.py --tests --scratch %s --patch %s --prop %s %s' % (
+        VERIF, scratch, os.path.join(dst, 'patch.diff'), prop, ('--also ' + ' '.join(also)) if also else ''))
     print(out[-1500:])
     res = json.load(open(os.path.join(VERIF, 'selftest', 'results.json'))).get(name) or {}
     intake['tests_with_change'] = res.get('tests')
